@@ -59,7 +59,7 @@ def _cases(shard):
             ops = [op('set', K, V, boom), op('set', K, V, boom), op('set', K, V, boom), op('del', K, boom),
                    op('del', K, boom), op('setdefault', K, V, boom), op('pop', K, boom), op('popd', K, V, boom),
                    op('popitem'), op('get', K, boom), op('in', K, boom), op('update', st.lists(st.tuples(K, V).map(list), max_size=5)),
-                   op('values'), op('items')]
+                   op('values'), op('items'), op('byValue', V)]
             if kind == 'BTree':
                 ops.append(op('insert', K, V, boom))
         else:
@@ -89,7 +89,7 @@ def _cases(shard):
         if kind in F.TREE_KINDS:
             cfg['sizes'] = sizes
         # every history ends with a sweep of range searches whose bounds are the first / last key of every leaf
-        return {'cfg': cfg, 'ops': pre + hist + [['edgesweep']], 'end': draw(st.sampled_from(['destroy', 'evict', 'destroy']))}
+        return {'cfg': cfg, 'ops': pre + hist + [['edgesweep']], 'end': draw(st.sampled_from(['destroy', 'evict', 'destroy', 'loadfail']))}
 
     return case()
 
@@ -102,7 +102,8 @@ def replay(case, ctx):
     run_case(case, ctx)
 
 
-READONLY = ('get', 'in', 'keys', 'keysx', 'minKey', 'maxKey', 'cursor', 'values', 'items', 'pickle', 'badstate', 'edgesweep')
+READONLY = ('get', 'in', 'keys', 'keysx', 'minKey', 'maxKey', 'cursor', 'values', 'items', 'pickle', 'badstate', 'edgesweep',
+            'byValue')
 
 
 def _node_refs(t, w):
@@ -254,6 +255,8 @@ def run_case(case, ctx):
                 raise Violation('after eviction and reload: keys %r, model %r' % (got, sorted(w.model)), dict(sig, what='contents'))
             classes.append('end:evict')
             del conn, sto
+        if case['end'] == 'loadfail':
+            _loadfail(w, t, fam, sig, ctx, classes)
         del t
         gc.collect()
         bad = refs.audit(w.registry, [], w.extra())
@@ -264,6 +267,68 @@ def run_case(case, ctx):
                   and (stats['unlink'] >= 1 or not w.is_tree))
     classes += ['had:' + k for k, v in stats.items() if v]
     return nontrivial, classes
+
+
+class LoadFailed(Exception):
+    """the storage cannot deliver a record"""
+
+
+def _loadfail(w, t, fam, sig, ctx, classes):
+    """Store the container, evict every node, and let the n-th load of a node fail (for every n) inside calls that walk
+    the container with the library's internal cursors: set operations, iteration, byValue, len.  The failure must
+    reach the caller; whatever was fetched before it must be released exactly once (the sanitizer build turns a double
+    release into a use-after-free abort when the nodes are dropped)."""
+    class Flaky(Z.Connection):
+        fail_at = 0
+        loads = 0
+
+        def setstate(self, obj):
+            self.loads += 1
+            if self.fail_at and self.loads == self.fail_at:
+                raise LoadFailed()
+            Z.Connection.setstate(self, obj)
+    if w.is_tree and walker.f16_pending(walker.walk(t, w.is_map, check=False)):
+        return
+    conn = Flaky(Z.Storage())
+    conn.add(t)
+    conn.commit()
+    union, difference = F.fn(fam, 'union', 'c'), F.fn(fam, 'difference', 'c')
+    calls = [('union', lambda: list(union(t, t))), ('difference', lambda: list(difference(t, t))),
+             ('iterate', lambda: list(t.items()) if w.is_map else list(t.keys())), ('len', lambda: len(t))]
+    if w.is_map:
+        calls.append(('byValue', lambda: t.byValue(w.V(0)) if not w.oval else t.byValue(P.Tracked(('v', -1, 0)))))
+    want = sorted(w.model)
+    for cname, call in calls:
+        conn.minimize()
+        conn.fail_at, conn.loads = 0, 0
+        call()
+        nloads = conn.loads
+        for n in range(1, nloads + 1):
+            conn.minimize()
+            conn.fail_at, conn.loads = n, 0
+            try:
+                call()
+                outcome = 'returned'
+            except LoadFailed:
+                outcome = 'raised'
+            except Exception as e:
+                conn.fail_at = 0
+                ctx.mismatch('%s on the stored container with the %d-th node load failing raised %s: %s instead of '
+                             'passing the storage\'s error on' % (cname, n, type(e).__name__, e),
+                             dict(sig, what='loadfail-wrong-exception', call=cname), recoverable=False)
+            finally:
+                conn.fail_at = 0
+            if outcome == 'returned' and conn.loads >= n:
+                ctx.mismatch('%s on the stored container with the %d-th node load failing returned normally'
+                             % (cname, n), dict(sig, what='loadfail-swallowed', call=cname))
+            classes.append('loadfail:%s:%s' % (cname, outcome))
+            got = [(k.n if w.okey else k) for k in t.keys()]
+            if got != want:
+                raise Violation('after %s with the %d-th node load failing: keys %r, model %r' % (cname, n, got, want),
+                                dict(sig, what='contents'))
+    conn.minimize()
+    gc.collect()
+    classes.append('end:loadfail')
 
 
 def _after_boom(w, t, op):
@@ -528,6 +593,20 @@ def _step(w, t, klass, op, alive, stats, classes):
             del nxt
             classes.append('merge_ok:with_next' if op[4] else 'merge_ok')
         vals.clear()
+    elif name == 'byValue':
+        # (value, key) pairs with value >= minimum, largest first: a list of fresh tuples that is dropped at once
+        if w.is_map:
+            mn = w.V(op[1])
+            r = t.byValue(mn)
+            for pair in r:
+                if not (isinstance(pair, tuple) and len(pair) == 2):
+                    raise Violation('byValue returned %r' % (pair,), {'what': 'byValue-shape', 'op': 'byValue'})
+            del r
+            if w.oval:
+                # the minimum was made for this call only
+                w.vals.pop()
+                w.registry.pop()
+            del mn
     elif name == 'pickle':
         b = pickle.dumps(t, 2)
         c = pickle.loads(b)
